@@ -393,7 +393,17 @@ def run_harness(ctx, lines, env_extra=None, timeout=600, exe=None):
             crashes += 1
     return out
 
-def run_oracle(ctx, lines, timeout=900, fbe=False):
+def run_oracle(ctx, lines, timeout=900, fbe=False, parallel=False):
+    """one result line per command line. parallel=True: the commands are independent of each other (no session state in
+    the driver), so large batches are split over several oracle processes"""
+    if parallel and len(lines) > 4000:
+        from concurrent.futures import ThreadPoolExecutor
+        k = min(NPROC, 12)
+        step = (len(lines) + k - 1) // k
+        chunks = [lines[i:i + step] for i in range(0, len(lines), step)]
+        with ThreadPoolExecutor(max_workers=k) as ex:
+            parts = list(ex.map(lambda ch: run_oracle(ctx, ch, timeout=timeout, fbe=fbe), chunks))
+        return [x for p_ in parts for x in p_]
     env = dict(os.environ)
     if fbe:
         env['ORACLE_HELPERS'] = 'BE'
